@@ -180,6 +180,18 @@ def hold_terms(row, env, z3):
             t = env.p(p.subs(v))
             out.append(t <= 0 if c.sense == 'le' else t == 0)
         return out
+    if U.ellipsoid() is None and U.quadform() is None:
+        # generic set: the universal quantifier over z stays in the formula
+        zs = [z3.Real('zq_' + n) for n in zn]
+        sub = Z3Env(dict(env.m))
+        for n, t in zip(zn, zs):
+            sub.m[n] = t
+        uz = U.z3(sub)
+        if sub.defs:
+            raise HarnessError('generic set with definitional atoms under a quantifier')
+        t = sub.p(p)
+        body = (t <= 0) if c.sense == 'le' else (t == 0)
+        return [z3.ForAll(zs, z3.Implies(z3.And(uz), body))]
     vt = viol_terms(row, env, z3)
     return [z3.Not(t) for t in vt]
 
